@@ -7,6 +7,7 @@ formula that differs as a function of the inputs.  min/max are not rational: `al
 rational functions a tree can evaluate to (one per outcome of the comparisons inside min/max).
 
 Nothing is evaluated numerically and no solver is involved; this is normalisation of syntax."""
+import re
 from fractions import Fraction
 from sym import strip_upd, show, noepoch
 from rules.degreerules import callee_kind
@@ -151,6 +152,18 @@ def alternatives(v, limit=64):
         inner = strip_upd(x[1])
         if inner[0] == 'agg' and x[2] in inner[3]:
             return alternatives(inner[4][inner[3].index(x[2])], limit)
+        # geo-types Coord arithmetic is component-wise (trusted): (a - b).x = a.x - b.x, (a * k).x = a.x * k
+        if inner[0] in ('pcall', 'call') and x[2] in ('x', 'y') and re.search(r'geo_types::Coord<T> as std::ops::(Add|Sub|Neg|Mul<T>|Div<T>)>::(add|sub|neg|mul|div)$', inner[1]):
+            m = inner[1].rsplit('::', 1)[1]
+            if m == 'neg':
+                return [-a for a in alternatives(('field', inner[2][0], x[2]), limit)]
+            lhs = alternatives(('field', inner[2][0], x[2]), limit)
+            rhs = alternatives(('field', inner[2][1], x[2]) if m in ('add', 'sub') else inner[2][1], limit)
+            out = []
+            for a in lhs:
+                for b in rhs:
+                    out.append({'add': a.__add__, 'sub': a.__sub__, 'mul': a.__mul__, 'div': a.__truediv__}[m](b))
+            return dedup(out, limit)
         nm = leaf_name(x)
         if nm is not None:
             return [var(nm)]
